@@ -145,7 +145,12 @@ def parse_tokens(toks, dialect='smiV2'):
 
 def parse_raw(toks, dialect='smiV2'):
     p = get_parser(dialect)
-    return p.parser.parse(lexer=FakeLexer(toks))
+    # the error rule reports unexpected end of input at the lexer's current line: in token mode "line" = token position
+    p.lexer.lexer.lineno = len(toks)
+    try:
+        return p.parser.parse(lexer=FakeLexer(toks))
+    finally:
+        p.lexer.lexer.lineno = 1
 
 
 def parse_text(text, dialect='smiV2'):
